@@ -135,7 +135,7 @@ FAMILY: Dict[str, Dict[str, Any]] = {
         shapes=lambda tier: shp.quick_shapes(), plans=lambda tier: P_EDIT if tier == "quick" else P_EDIT_THOROUGH,
         variants=lambda tier: [_v("local", "local", ["one", "split"], "from", 0.5 if tier == "quick" else 1.0),
                                _v("local", "local+lru", ["split"], "from_as", 0.25 if tier == "quick" else 1.0)],
-        oracle=oracles.c04, loads=True, store_kw=True, protocol=True, repo_tests=True,
+        oracle=oracles.c04, loads=True, store_kw=True, protocol=True, repo_tests=True, spec_refines_protocol=True,
         nontrivial=lambda hist: any(len(r["served"]) > 0 for r in [x for x in hist if x["op"] == "eval"][1:]),
         rule="history as C01; every evaluation is followed by a second process loading every committed path; "
              "non-trivial when a later evaluation leaves at least one committed path to load"),
@@ -349,11 +349,24 @@ def run_family(prop: str, tier: str) -> int:
             nrepo = len(rt)
             ptraces += rt
             rep.cov["repo_tests_recorded"] = summary.strip("= ")
+        nspec = 0
+        if fam.get("spec_refines_protocol"):
+            # spec vs spec: the store operations DdsEval itself performs must be accepted by EvalProto
+            for sk in ("local", "memory", "noop"):
+                Ss = _shapes_for(shp.core_shapes() + shp.load_shapes()[:3], sk)
+                (_, shs) = evalfam.tlc_generate(Ss, P_EDIT[:2] + P_FAIL[:1] + P_STAGES[:1], 1, sk, "package", ["one"],
+                                                name="gops_" + sk, stages=[2, 4, 5], fail_classes=["Exception"], log_ops=True)
+                for h in shs:
+                    ptraces.append(evalproto.traces_from_spec(h["hist"], sk == "noop", sk == "memory"))
+                    nspec += 1
+        rep.cov["protocol_traces_from_the_spec_itself"] = nspec
         (pr, rejected) = evalproto.validate(ptraces)
         rep.cov["protocol_traces_judged_by_tlc"] = len(ptraces)
         rep.cov["protocol_traces_from_repo_tests"] = nrepo
         rep.cov["protocol_trace_states"] = pr.distinct
         for rj in rejected:
+            if rj["test"] == "spec":
+                raise common.MachineryError("DdsEval does not refine EvalProto: %s\n%s" % (rj["clauses"], rj["events"]))
             rep.violation("%s|protocol|%s" % (prop, rj["clauses"][0][1].replace(" ", "_")),
                           {"source": rj["test"], "clauses": rj["clauses"], "events_before": rj["events"]})
     if fam.get("extra"):
